@@ -117,6 +117,7 @@ func checkC04(c *Ctx, r *Report) {
 	c04Flows(c, r)
 	c04NoPrecedenceSentinel(c, r, "C04.a")
 	c10DirectiveWords(c, r, "C04.b")
+	c10DeclareDispatch(c, r, "C04.b")
 	// a %prec belongs to one alternative: at `|` the next alternative starts from a fresh record (C10.d)
 	includeSome(r, "C04.c", func(sub *Report) { c10d(c, sub) }, "alternative-starts-fresh")
 	// every cell with two or more candidates is resolved at all (C02.a)
